@@ -142,7 +142,7 @@ func TestVerifC08Args(t *testing.T) {
 			check(list, assign)
 		}
 	}
-	n := verifkit.Scale(500, 20000)
+	n := verifkit.Scale(500, 100000)
 	for i := 0; i < n; i++ {
 		l := 1 + rng.Intn(8)
 		list := make([]string, l)
